@@ -544,7 +544,14 @@ def sd7(F, R):
         from .ev import specialise_enum
         vs = F.variants("sdcard::CardType")
         is_opt = lambda x: x[0] == "place" and x[2] and x[2][-1] == "card_type"
-        is_kind = lambda x: x[0] == "place" and "card_type" in x[2] and "as:Some" in x[2] and x[2][-1] == "0"
+        def is_kind(x):
+            if x[0] == "place" and "card_type" in x[2] and "as:Some" in x[2] and x[2][-1] == "0":
+                return True
+            if x[0] == "var" and isinstance(x[1], int) and fn.locals[x[1]]["ty"].endswith("CardType"):
+                return True
+            # `self.card_type.ok_or(e)?`: the payload of the Option, handed through ok_or and `?`
+            return (x[0] == "place" and tuple(x[2][-2:]) in (("as:Continue", "0"), ("as:Ok", "0")) and has_sub(x[1], lambda q: q[0] == "call" and q[1] and q[1].endswith(("::ok_or", "::ok_or_else")))
+                    and has_sub(x[1], lambda q: q[0] == "place" and q[2] and q[2][-1] == "card_type"))
         cmd_blocks = [b for b, t in data_cmds]
         for kind in [None] + list(vs):
             # decide every test of self.card_type for this concrete value and see which address definition reaches the data commands
@@ -555,7 +562,10 @@ def sd7(F, R):
             if kind is None:
                 R.require(not any(b in rs for b in cmd_blocks), fn, "uninit:no-command", "a data command is sent although the card is not initialised (card_type == None)", fn.loc(0))
                 errs = [x for x in err_returns(fn, adt="Error") if x[2] == "CardNotFound" and x[0] in rs]
-                R.require(len(errs) >= 1 and not any(x[0] in rs for x in ok_returns(fn)), fn, "uninit->CardNotFound", "uninitialised card must give Err(CardNotFound)", fn.loc(0))
+                # (`self.card_type.ok_or(Error::CardNotFound)?`: the error is built into the Result the `?` returns)
+                built = [b_ for b_, i_, s_ in fn.stmts() if b_ in rs and s_["k"] == "Assign" and s_["rv"]["k"] == "Aggregate" and s_["rv"].get("variant_name") == "Err"
+                         and "CardNotFound" in tstr(fn.term_of_rvalue(s_["rv"], b_))]
+                R.require((len(errs) >= 1 or built) and not any(x[0] in rs for x in ok_returns(fn)), fn, "uninit->CardNotFound", "uninitialised card must give Err(CardNotFound)", fn.loc(0))
                 continue
             forms = set()
             for d in fn.defs().get(v, []):
